@@ -75,8 +75,14 @@ func (n *ObjectNode) render(w *trimWriter, ctx nodeContext) Error {
 	if value == nil && ctx.config.StrictVariables {
 		return wrapRenderError(errors.New("undefined variable"), n)
 	}
+	// Whitespace control is about the literal text next to a tag: a value is emitted exactly.
+	// A pending right-trim does not apply to it, and a later left-trim must not reach back into it.
+	w.trim = false
 	if err := wrapRenderError(writeObject(w, value), n); err != nil {
 		return err
+	}
+	if _, err := w.Flush(); err != nil {
+		return wrapRenderError(err, n)
 	}
 	return nil
 }
